@@ -23,6 +23,31 @@ MUTS=[
  ('muck_keeps_runout_choice','PK/Model/Machine.lean',"          | .ok s' => .ok { s' with runoutSelectors := s'.runoutSelectors.set p false }","          | .ok s' => .ok s'"),
  ('log_record_dropped_on_call','PK/Model/Machine.lean',"        m.cont s [.updBet (some (.checkingOrCalling p amount)) false] rest","        m.cont s [.updBet none false] rest"),
 ]
+
+MUTS += [
+ # --- non-engine models
+ ('acpc_raise_total_is_increment','PK/Model/Acpc.lean',"    (c', some (.raise (if nt then some (getI c'.committed p).toNat else none)))","    (c', some (.raise (if nt then some (x - getI c.bets p).toNat else none)))"),
+ ('acpc_call_is_fold','PK/Model/Acpc.lean',"  | .folding _ => (c, some .fold)","  | .folding _ => (c, some .call)"),
+ ('import_pokerstars_raise_is_total','PK/Model/Import.lean',"  | .pokerStars => maxBet + raw\n  | .fullTilt => raw","  | .pokerStars => raw\n  | .fullTilt => raw"),
+ ('import_short_raise_not_call','PK/Model/Import.lean',"    (setN bets p t, some (if t ≤ mx then .call p else .cbr p t))","    (setN bets p t, some (.cbr p t))"),
+ ('import_headsup_blinds_not_swapped','PK/Model/Import.lean',"  if posted.length == 2 then l.reverse else l","  l"),
+ ('phh_muck_written_as_show','PK/Model/Notation.lean',"  | .holeCardsShowingOrMucking p cs => some (if cs.isEmpty then .muck p else .showCards p cs)","  | .holeCardsShowingOrMucking p cs => some (.showCards p cs)"),
+ ('equity_share_ignores_ties','PK/Model/Analysis.lean',"  if (hs.getD i none).isSome && hs.getD i none == best then 1 / ((k : Rat) * (winners : Rat)) else 0","  if (hs.getD i none).isSome && hs.getD i none == best then 1 / (k : Rat) else 0"),
+ ('icm_no_renormalisation','PK/Model/Analysis.lean',"  | j :: rest, denom => (pct.getD j 0 / denom) * orderProbability pct rest (denom - pct.getD j 0)","  | j :: rest, denom => (pct.getD j 0 / denom) * orderProbability pct rest denom"),
+ # --- engine, second batch
+ ('blind_not_taken_from_stack','PK/Model/Machine.lean',"          blindPosting := s.blindPosting.set p false\n          bets := s.bets.set p amount\n          stacks := s.stacks.set p (getI s.stacks p - amount)","          blindPosting := s.blindPosting.set p false\n          bets := s.bets.set p amount\n          stacks := s.stacks.set p (getI s.stacks p)"),
+ ('burn_flag_not_cleared','PK/Model/Machine.lean',"          let s := { s with cardBurning := false, burned := s.burned ++ [v.val] }","          let s := { s with burned := s.burned ++ [v.val] }"),
+ ('hole_cards_not_queued_for_dealing','PK/Model/Machine.lean',"        holeDealing := s.holeDealing.set p (q.drop cards.length)","        holeDealing := s.holeDealing.set p q"),
+ ('call_amount_ignores_stack','PK/Model/State.lean',"    | .ok (some p) => .ok (some (min (getI s.stacks p) (maxI s.bets - getI s.bets p)))","    | .ok (some p) => .ok (some (maxI s.bets - getI s.bets p))"),
+ ('raise_cap_off_by_one','PK/Model/State.lean',"      if (match st.maxCount with | some c => s.cbrCount == c | none => false) then .error .valueError","      if (match st.maxCount with | some c => s.cbrCount == c + 1 | none => false) then .error .valueError"),
+ ('short_all_in_rule_dropped','PK/Model/State.lean',"          if !s.consecAllIn.isEmpty && sumI s.consecAllIn < s.cbrAmount && s.acted.contains p\n          then .error .valueError","          if false\n          then .error .valueError"),
+ ('push_before_pull_order','PK/Model/Machine.lean',"    else m.cont s [.beginPull] rest","    else m.cont s [.endHand] rest"),
+ ('end_hand_keeps_status','PK/Model/Machine.lean',"  | .endHand => m.cont { s with status := false } [] rest","  | .endHand => m.cont s [] rest"),
+ ('runout_disagreement_keeps_first','PK/Model/Machine.lean',"          | some rc => if rc != c then { s with runoutCount := some 1 } else s","          | some rc => s"),
+ ('odd_chips_to_last_winner','PK/Model/Machine.lean',"    bets.set i (getI bets i + (if some i == winners.head? then q + r else q))) bets","    bets.set i (getI bets i + (if some i == winners.getLast? then q + r else q))) bets"),
+ ('refusal_changes_warned_flag','PK/Model/Machine.lean',"def raise (m : M) (e : Err) : M := { m with ctl := [], err := some e }","def raise (m : M) (e : Err) : M := { m with ctl := [], err := some e, warned := true }"),
+ ('collect_keeps_flag','PK/Model/Machine.lean',"  let s1 := { s with betCollection := false }","  let s1 := s"),
+]
 only=sys.argv[1:] 
 res=[]
 for name, f, old, new in MUTS:
